@@ -3,6 +3,7 @@ package c19
 import (
 	"fmt"
 	"math/rand"
+	"sort"
 	"strings"
 
 	"golang.org/x/net/html"
@@ -20,7 +21,7 @@ type treeIn struct {
 	ReportOnly bool `json:"report_only,omitempty"`
 }
 
-const pseudoContent = `"[" counters(c,".") "|" counter(d) "|" counters(list-item,".") "]"`
+const pseudoContent = `"[" counters(c,".") "|" counter(d) "|" counters(list-item,".") "|" counters(c,"/",upper-alpha) "|" counter(d,lower-roman) "]"`
 
 // ---- HTML text of an AST -------------------------------------------------------------------------
 
@@ -109,7 +110,7 @@ func treeHTML(body *Node) string {
 
 // ---- generator -----------------------------------------------------------------------------------
 
-var treeListTypes = []string{"decimal", "decimal", "decimal-leading-zero", "lower-alpha", "upper-alpha", "lower-roman", "upper-roman", "lower-greek", "georgian", "hebrew", "cjk-decimal", "lower-armenian"}
+var treeListTypes = []string{"decimal", "decimal", "decimal-leading-zero", "lower-alpha", "upper-alpha", "lower-roman", "upper-roman", "lower-greek", "georgian", "hebrew", "cjk-decimal", "lower-armenian", "none"}
 
 type treeGen struct {
 	r          *rand.Rand
@@ -325,7 +326,8 @@ func checkTree(t *treeIn, res *fw.Result) {
 		res.Fail(sig, msg)
 	}
 	compared := 0
-	for key, exp := range m.texts {
+	for _, key := range sortedKeys(m.texts) {
+		exp := m.texts[key]
 		g := got[key]
 		if len(g) != 1 || g[0] != exp {
 			fail("counter-text", fmt.Sprintf("%s is %q, CSS Lists model gives %q; document: %s", key, g, exp, t.HTML))
@@ -343,7 +345,8 @@ func checkTree(t *treeIn, res *fw.Result) {
 		}
 	}
 	collect(t.Body)
-	for key, v := range m.marker {
+	for _, key := range sortedKeys(m.marker) {
+		v := m.marker[key]
 		exp := env.Marker(listType[key], v, nil)
 		g := got[key]
 		if len(g) != 1 || g[0] != exp {
@@ -353,7 +356,7 @@ func checkTree(t *treeIn, res *fw.Result) {
 		markers++
 	}
 	// no pseudo-element box for an element of a display:none subtree, none unexpected
-	for key := range got {
+	for _, key := range sortedKeys(got) {
 		_, a := m.texts[key]
 		_, c := m.marker[key]
 		if !a && !c {
@@ -371,4 +374,13 @@ func checkTree(t *treeIn, res *fw.Result) {
 		res.Count(k, v)
 	}
 	res.Nontrivial = compared > 0 && (m.stats["tree_nested_counters"] > 0 || m.stats["tree_sibling_replaced"] > 0)
+}
+
+func sortedKeys[V any](m map[string]V) []string {
+	out := make([]string, 0, len(m))
+	for k := range m {
+		out = append(out, k)
+	}
+	sort.Strings(out)
+	return out
 }
